@@ -22,7 +22,7 @@ use crux_core::Core;
 use mc_kit::catch;
 use serde_json::{json, Value as Json};
 
-use crate::c10_app::{partial_app as pa, readable_app as ra, VerifApp};
+use crate::c10_app::{partial_app as pa, position_apps as po, readable_app as ra, VerifApp};
 use crate::codec::{self, Alphabet, Container, Fmt, Level, Schema, Shape, Space, Val};
 
 #[derive(Clone, Copy, Debug, PartialEq, Eq)]
@@ -314,7 +314,185 @@ pub fn run(main_schema: &Schema) -> Report {
         }
     }
     readable_family(&mut rep, &entries);
+    position_family(&mut rep, &entries);
     rep
+}
+
+// ---------------------------------------------------------------------------------------------
+// Apps that differ only in the position of skipped capabilities
+
+/// Everything the real bridge of position app `A` accepts or emits: Find events, the request
+/// batch, every `LookupResponse` answer, the batch and the view afterwards.
+fn position_wires<A>(reference: &Schema, transitions: &mut u64) -> Result<Vec<Wire>, String>
+where
+    A: crux_core::App,
+    A::Capabilities: crux_core::WithContext<A::Event, A::Effect>,
+    A::Event: for<'a> serde::Deserialize<'a>,
+{
+    let alpha = small_alphabet();
+    let events = Space::of_container("Event", reference, &alpha, 0);
+    let answers = Space::of_container("LookupResponse", reference, &alpha, 0);
+    let batch = Fmt::Seq(Box::new(Fmt::TypeName("Request".into())));
+    let mut wires = vec![];
+    for i in 0..events.count() {
+        let ev = events.nth(i);
+        let label = codec::render(&ev).to_string();
+        for k in 0..answers.count() {
+            let a = answers.nth(k);
+            let alabel = format!("{label} answered {}", codec::render(&a));
+            let r = catch(|| {
+                let bridge: Bridge<A> = Bridge::new(Core::new());
+                let bytes = codec::encode(&ev);
+                let out = bridge.process_event(&bytes).map_err(|e| format!("process_event refuses {label}: {e}"))?;
+                let id = if out.len() >= 12 { u32::from_le_bytes(out[8..12].try_into().unwrap()) } else { 0 };
+                let ab = codec::encode(&a);
+                let out2 = bridge.handle_response(id, &ab).map_err(|e| format!("handle_response refuses {alabel}: {e}"))?;
+                let view = bridge.view().map_err(|e| format!("view fails after {alabel}: {e}"))?;
+                Ok::<_, String>(vec![
+                    Wire { what: "event the core accepts", label: label.clone(), format: Fmt::TypeName("Event".into()), bytes },
+                    Wire { what: "request batch the core emits", label: label.clone(), format: batch.clone(), bytes: out },
+                    Wire { what: "capability output the core accepts", label: alabel.clone(), format: Fmt::TypeName("LookupResponse".into()), bytes: ab },
+                    Wire { what: "request batch the core emits", label: alabel.clone(), format: batch.clone(), bytes: out2 },
+                    Wire { what: "view the core emits", label: alabel.clone(), format: Fmt::TypeName("ViewModel".into()), bytes: view },
+                ])
+            });
+            *transitions += 3;
+            match r {
+                Ok(Ok(ws)) => wires.extend(ws),
+                Ok(Err(e)) => return Err(e),
+                Err(p) => return Err(format!("panic `{}` at {}:{} on {alabel}", p.message, p.file, p.line)),
+            }
+        }
+    }
+    Ok(wires)
+}
+
+fn check_position<A>(order: &str, reference: &Schema, entries: &[Entry], rep: &mut Report, schemas: &mut Vec<(String, Schema)>)
+where
+    A: crux_core::App,
+    A::Capabilities: crux_core::WithContext<A::Event, A::Effect>,
+    A::Event: for<'a> serde::Deserialize<'a>,
+    A::Effect: crux_core::typegen::Export,
+    A::ViewModel: for<'a> serde::Deserialize<'a> + 'static,
+{
+    let replay = || json!({"engine": "enumx/C10", "kind": "typegen", "family": "position of skipped capabilities", "field_order": order});
+    let wires = match position_wires::<A>(reference, &mut rep.transitions) {
+        Ok(w) => w,
+        Err(e) => {
+            rep.found.push(Found { key: "PositionApp/bridge-refuses-schema-valid-input".into(), what: format!("field order {order}: {e}"), replay: replay(), size: 1 });
+            return;
+        }
+    };
+    rep.states += wires.len() as u64;
+    for w in &wires {
+        rep.transitions += 1;
+        if let Some(why) = undecodable(reference, w) {
+            rep.found.push(Found { key: "PositionApp/core-bytes-disagree-with-complete-schema".into(), what: format!("field order {order}: {} ({}) = {}: under the completely registered schema it {why}", w.what, w.label, hex(&w.bytes)), replay: replay(), size: w.bytes.len() });
+        }
+    }
+    for e in entries {
+        let dir = TempDir::new(&format!("position-{order}-{e:?}"));
+        rep.states += 1;
+        rep.transitions += 2;
+        match generate(*e, |g| g.register_app::<A>(), &dir.0) {
+            Err(err) => {
+                *rep.classes.entry(format!("{}: position apps: VIOLATION generation fails", e.name())).or_insert(0) += 1;
+                rep.found.push(Found { key: "typegen/position-app-generation-fails".into(), what: format!("{} fails for the app with capability fields in the order {order}: {err}", e.name()), replay: replay(), size: 1 });
+            }
+            Ok((Err(why), _)) => rep.found.push(Found { key: "typegen/unresolved-registry-generated".into(), what: format!("{} generated for field order {order} from a registry that is not a schema: {why}", e.name()), replay: replay(), size: 1 }),
+            Ok((Ok(generated), _)) => {
+                let mut failing: Vec<(&Wire, String)> = vec![];
+                for w in &wires {
+                    rep.transitions += 1;
+                    if let Some(why) = undecodable(&generated, w) {
+                        failing.push((w, why));
+                    }
+                }
+                let mut lacks = truncated(&generated, reference);
+                lacks.extend(generated.keys().filter(|k| !reference.contains_key(*k)).map(|k| format!("{k} is surplus")));
+                if failing.is_empty() && lacks.is_empty() {
+                    *rep.classes.entry(format!("{}: position apps: generated schema complete and equal to the reference", e.name())).or_insert(0) += 1;
+                } else if !failing.is_empty() {
+                    *rep.classes.entry(format!("{}: position apps: VIOLATION type missing from generated schema", e.name())).or_insert(0) += 1;
+                    let (w, why) = failing.iter().min_by_key(|(w, _)| w.bytes.len()).unwrap();
+                    rep.found.push(Found {
+                        key: "typegen/registered-app-schema-lacks-type".into(),
+                        what: format!(
+                            "{} succeeded for the app with capability fields in the order {order}, but {} of {} byte strings its bridge accepts or emits do not decode under the generated schema ({}); e.g. the {} after {} is {} and {why}",
+                            e.name(),
+                            failing.len(),
+                            wires.len(),
+                            lacks.join("; "),
+                            w.what,
+                            w.label,
+                            hex(&w.bytes)
+                        ),
+                        replay: replay(),
+                        size: order.len(),
+                    });
+                } else {
+                    *rep.classes.entry(format!("{}: position apps: VIOLATION schema depends on field order", e.name())).or_insert(0) += 1;
+                    rep.found.push(Found { key: "typegen/schema-depends-on-capability-order".into(), what: format!("{} for field order {order} generated from a registry that differs from the other orders' although every byte string decodes: {}", e.name(), lacks.join("; ")), replay: replay(), size: order.len() });
+                }
+                if *e == Entry::Java {
+                    schemas.push((order.to_string(), generated));
+                }
+            }
+        }
+    }
+}
+
+fn position_family(rep: &mut Report, entries: &[Entry]) {
+    use po::common::{LookupRequest, LookupResponse};
+    // the reference: everything registered explicitly, skipped field last (the documented layout)
+    let reference = match crate::c10::registry_of(|g| {
+        g.register_type::<LookupRequest>()?;
+        g.register_type::<LookupResponse>()?;
+        g.register_app::<po::lookup_render_skip::App>()
+    }) {
+        Ok(r) => r,
+        Err(e) => mc_kit::machinery_error(&format!("the reference registry of the position apps cannot be traced: {e}")),
+    };
+    let mut schemas: Vec<(String, Schema)> = vec![];
+    macro_rules! each {
+        ($($m:ident => $order:expr),+ $(,)?) => {
+            $( check_position::<po::$m::App>($order, &reference, entries, rep, &mut schemas); )+
+        };
+    }
+    each!(
+        lookup_render_skip => "lookup, render, [skipped compose]",
+        render_lookup_skip => "render, lookup, [skipped compose]",
+        lookup_skip_render => "lookup, [skipped compose], render",
+        render_skip_lookup => "render, [skipped compose], lookup",
+        skip_lookup_render => "[skipped compose], lookup, render",
+        skip_render_lookup => "[skipped compose], render, lookup",
+        skip_skip_lookup_render => "[skipped compose], [skipped compose2], lookup, render",
+        skip_lookup_skip_render => "[skipped compose], lookup, [skipped compose2], render",
+        render_skip_skip_lookup => "render, [skipped compose], [skipped compose2], lookup",
+        lookup_skip_render_skip => "lookup, [skipped compose], render, [skipped compose2]",
+    );
+    // the position of a skipped capability must not change the schema
+    let mut equal = true;
+    if let Some((first, s0)) = schemas.first() {
+        for (order, s) in &schemas[1..] {
+            rep.transitions += 1;
+            if s != s0 {
+                equal = false;
+                if !rep.found.iter().any(|f| f.key == "typegen/registered-app-schema-lacks-type") {
+                    rep.found.push(Found { key: "typegen/schema-depends-on-capability-order".into(), what: format!("the registries generated for field orders `{first}` and `{order}` differ: {:?} / {:?}", s0.keys().collect::<Vec<_>>(), s.keys().collect::<Vec<_>>()), replay: json!({"engine": "enumx/C10", "kind": "typegen", "family": "position of skipped capabilities"}), size: 2 });
+                }
+            }
+        }
+    }
+    rep.info.insert(
+        "position_of_skipped_capabilities".into(),
+        json!({
+            "capabilities": ["Lookup (struct operation LookupRequest, output LookupResponse not mentioned in Event or ViewModel)", "Render", "Compose with #[effect(skip)]", "a second skipped Compose in four further orders"],
+            "field_orders": schemas.iter().map(|(o, _)| o.clone()).collect::<Vec<_>>(),
+            "containers_expected_in_every_registry": reference.keys().collect::<Vec<_>>(),
+            "registries_of_all_orders_equal": equal,
+        }),
+    );
 }
 
 // ---------------------------------------------------------------------------------------------
